@@ -112,9 +112,32 @@ def c16c(F, R):
             dd = True
             arg = ekey(built[0]["args"][0])
             c = peel(n["cond"])
-            okk = c.get("k") == "Unary" and c["op"] == "Not" and peel(c["a"]).get("k") == "MethodCall" and peel(c["a"])["name"] == "insert" and ekey(peel(c["a"])["args"][0]) == arg
+            def _core(x):
+                """the label expression without `.clone()`, `.as_str()`, `&`"""
+                x = peel(x)
+                while x.get("k") in ("AddrOf",) or (x.get("k") == "MethodCall" and x["name"] in ("clone", "as_str", "to_string", "to_owned", "borrow", "as_ref") and not x["args"]):
+                    x = peel(x.get("e") or x.get("recv"))
+                return ekey(x)
+            okk = c.get("k") == "Unary" and c["op"] == "Not" and peel(c["a"]).get("k") == "MethodCall" and peel(c["a"])["name"] == "insert" and _core(peel(c["a"])["args"][0]) == _core(built[0]["args"][0])
             if okk:
                 R.ok("duplicate-label-token", detail=f"DuplicateLabel({arg}) exactly when inserting {arg} into the set of seen labels fails")
+            elif c.get("k") == "MethodCall" and c["name"] in ("contains", "contains_key") and c["args"] and _core(c["args"][0]) == _core(built[0]["args"][0]):
+                # `if seen.contains(x) { Err(Duplicate(x)) }`: every label must enter `seen` in the same arm, unconditionally
+                S = ekey(c["recv"]).lstrip("&*")
+                from .p_parse import parent_map
+                pm = parent_map(f["hir"]["value"])
+                blk = pm.get(id(n))
+                while blk is not None and blk.get("k") != "Block":
+                    blk = pm.get(id(blk))
+                ins = []
+                for st in (blk or {}).get("stmts", []):
+                    e = peel(st.get("e") or {})
+                    if e.get("k") == "MethodCall" and e["name"] == "insert" and ekey(e["recv"]).lstrip("&*") == S and any(_core(a_) == _core(built[0]["args"][0]) for a_ in e["args"]):
+                        ins.append(e)
+                if ins:
+                    R.ok("duplicate-label-token", detail=f"DuplicateLabel({arg}) when {S} already holds the label; every label is inserted into {S} in the same arm")
+                else:
+                    R.bad("duplicate-label-token", f"the duplicate test asks `{S}`, which does not receive every label where it is defined (no unconditional `{S}.insert(<label>)` next to the test): a second definition that arrives before the first one has reached `{S}` - two data labels in one .data block, the same label twice before one instruction - is not reported", loc(n))
             else:
                 R.bad("duplicate-label-token", "DuplicateLabel is not built from the label whose insertion failed", loc(n))
     if not dd:
